@@ -204,3 +204,23 @@ def all_rule_classes():
                     continue
                 names.add(n)
     return names
+
+
+def first_diff(a, b, ctx=70):
+    """short description of the first difference between two strings"""
+    n = min(len(a), len(b))
+    i = 0
+    while i < n and a[i] == b[i]:
+        i += 1
+    lo = max(0, i - ctx)
+    return "first difference at %d:\n  A: ...%s\n  B: ...%s" % (i, a[lo : i + ctx], b[lo : i + ctx])
+
+
+_NAME_RE = re.compile(r"Name\('([^']*)'\)")
+
+
+def canon_fold_names(c):
+    """canonical tree text with the spelling of names case-folded (used only
+    when a layout changed keyword case: intrinsic / keyword-argument names
+    written in another case are the same names)"""
+    return _NAME_RE.sub(lambda m: "Name('%s')" % m.group(1).lower(), c)
